@@ -659,7 +659,7 @@ def enc_centry(e):
         return "(CE404 %s)" % enc_path(e[1])
     if e[0] == "CEItem":
         return "(CEItem %s %s %s)" % (enc_path(e[1]), enc_obj(e[2]), enc_bool(e[3]))
-    return "(CEColl %s %s [%s] %s)" % (enc_path(e[1]), e[2], ";".join("(%d%%N, %d%%N)" % kv for kv in e[3]), enc_bool(e[4]))
+    return "(CEColl %s %s ([%s] : list (N * N)) %s)" % (enc_path(e[1]), e[2], ";".join("(%d%%N, %d%%N)" % kv for kv in e[3]), enc_bool(e[4]))
 
 
 def enc_cresp(c):
@@ -680,15 +680,16 @@ def enc_cresp(c):
 
 
 def enc_cresps(l):
-    return "[" + ";".join(enc_cresp(c) for c in l) + "]"
+    return "([" + ";".join(enc_cresp(c) for c in l) + "] : list cresp)"
 
 
 def enc_cstore(cs):
     rows = []
     for p, tag, props, items in cs:
-        rows.append("(%s, %s, [%s], [%s])" % (enc_path(p), tag, ";".join("(%d%%N, %d%%N)" % kv for kv in props),
-                                            ";".join("(%d%%N, %s)" % (n, enc_obj(o)) for n, o in items)))
-    return "[" + ";".join(rows) + "]"
+        rows.append("(%s, %s, ([%s] : list (N * N)), ([%s] : list (name * obj)))" % (
+            enc_path(p), tag, ";".join("(%d%%N, %d%%N)" % kv for kv in props),
+            ";".join("(%d%%N, %s)" % (n, enc_obj(o)) for n, o in items)))
+    return "([" + ";".join(rows) + "] : cstore)"
 
 
 COQ_HEADER = """From Coq Require Import List NArith Bool.
